@@ -423,9 +423,16 @@ def parse_arch(arch, K):
     if pub not in fns:
         raise T7Error("%s: %s() not found" % (rel, pub))
     pc = canon(body_of(fns[pub]))
-    want = "{(call %s state 1); (if (! (call self_test state)) (call imb_set_errno state IMB_ERR_SELFTEST))}" % iname
-    if pc != want:
-        raise T7Error("%s: %s() is not `internal(state, 1); if (!self_test(state)) errno = SELFTEST`: %s" % (rel, pub, pc[:300]))
+    tail = "(if (! (call self_test state)) (call imb_set_errno state IMB_ERR_SELFTEST))}"
+    plain = "{(call %s state 1); " % iname + tail
+    guarded = "{(call %s state 1); (if (|| (== state 0) (!= (-> state imb_errno) 0)) (return)); " % iname + tail
+    if pc == plain:
+        info["guard"] = False      # self test runs whatever the internal init did
+    elif pc == guarded:
+        info["guard"] = True       # self test skipped when the internal init left an error code
+    else:
+        raise T7Error("%s: %s() is not `internal(state, 1); [if (state == NULL || state->imb_errno != 0) return;] "
+                      "if (!self_test(state)) errno = SELFTEST`: %s" % (rel, pub, pc[:300]))
     return info
 
 
@@ -873,11 +880,12 @@ def emit_v(K, variants, archs, table, steps, first_off, slack, adjust, resets, l
           "Definition feature_adjust_rules : list (N * N) := [%s]." % "; ".join("(%d, %d)" % r for r in adjust)]
     L += ["", "(* ---- per-arch init_mb_mgr_<arch>_internal ---- *)",
           "Inductive arch_step := AErrno0 | AFeatures | ALadder.",
-          "Record arch_init := mkarch { ai_name : string; ai_req : N; ai_steps : list arch_step; ai_ladder : list (N * string); ai_default : string }.",
+          "Record arch_init := mkarch { ai_name : string; ai_req : N; ai_steps : list arch_step; ai_ladder : list (N * string); ai_default : string;",
+          "  ai_guard : bool (* init_mb_mgr_<arch>() skips the self test when the internal init left an error code *) }.",
           "Definition arch_inits : list arch_init := ["]
     L.append(";\n".join('  mkarch %s %d [%s] [%s] %s' % (q(a["arch"]), a["req_mask"],
                                                          "; ".join({"errno0": "AErrno0", "features": "AFeatures", "ladder": "ALadder"}[s] for s in a["steps"]),
-                                                         "; ".join("(%d, %s)" % (m, q(t)) for m, t in a["ladder"]), q(a["default"])) for a in archs))
+                                                         "; ".join("(%d, %s)" % (m, q(t)) for m, t in a["ladder"]), q(a["default"]) + (" true" if a["guard"] else " false")) for a in archs))
     L.append("].")
     L += ["", "(* ---- per-variant init_mb_mgr_<variant>_internal + reset_ooo_mgrs ---- *)",
           "Record variant := mkvar { v_name : string; v_file : string; v_req : N; v_arch : N; v_arch_type : N;",
